@@ -141,6 +141,14 @@ class AbsEval(ConstEval):
         if isinstance(e, ast.Attribute):
             if e.attr == "this" and isinstance(e.value, ast.Name) and e.value.id == "construct" and "this" in env:
                 return env["this"]  # construct's lazy context expression, evaluated on the abstract context
+            if isinstance(e.value, ast.Call) and isinstance(e.value.func, ast.Name) and e.value.func.id == "super" and not e.value.args:
+                obj = env.get("self")
+                if isinstance(obj, AObj) and obj.cls_key is not None:
+                    for k in self.M.mro(obj.cls_key)[1:]:
+                        cn, ck = self.M.find_const(k, e.attr)
+                        if cn is not None:
+                            return self.class_const(ck[0], ck[1], e.attr)
+                raise NotConstant(f"super().{e.attr}")
             base = self.eval(e.value, env, mod)
             if isinstance(base, AObj):
                 if e.attr in base.attrs:
@@ -241,6 +249,16 @@ class AbsEval(ConstEval):
                 kw = {k.arg: self.eval(k.value, env, mod) for k in e.keywords if k.arg}
                 return h(args, kw)
         name = ftxt.split(".")[-1]
+        if isinstance(e.func, ast.Attribute) and isinstance(e.func.value, ast.Call) and isinstance(e.func.value.func, ast.Name) and e.func.value.func.id == "super" and not e.func.value.args:
+            # super().m(...): the next definition of m after the object's own class in the repository MRO (external bases: no effect)
+            obj = env.get("self")
+            args = [self.eval(a, env, mod) for a in e.args]
+            if isinstance(obj, AObj) and obj.cls_key is not None:
+                for k in self.M.mro(obj.cls_key)[1:]:
+                    m = self.M.classes[k].methods.get(e.func.attr) if k in self.M.classes else None
+                    if m is not None:
+                        return self.call_func(FuncRef(m.mod, m.node), [obj] + args)
+            return None
         if isinstance(e.func, ast.Attribute):
             # method on an abstract value
             base = self.eval(e.func.value, env, mod)
